@@ -29,7 +29,11 @@ MANIFEST = {
             "reachable state a still-registered actor has a still-registered parent that lists it, so no actor finishes terminating before "
             "any descendant; C05_no_registered_child_of_unregistered_parent_partial. The excluded script behaviour is a real defect, proved "
             "as C05_registry_empty_after_shutdown_refuted (spawn inside the final OnTerminated creates an orphan nobody waits for: open "
-            "finding). C05_graceful_request_queued_behind_partial (Kernel/Queue.v: a graceful request is appended behind every user "
+            "finding). Under the same two hypotheses (Kernel/Shutdown.v, on the invariant strengthened by 'the registered parent is an "
+            "older object' and 'the guard is the only parentless object'): C05_shutdown_returns_after_everyone_partial — in every run, the "
+            "very step that sets the closed flag (what Shutdown returns on) leaves the registry EMPTY and every actor object terminated; "
+            "the flag is set only by the guard finishing with an empty children table, and every other registered object would have a "
+            "well-founded chain of registered ancestors ending in that table. C05_graceful_request_queued_behind_partial (Kernel/Queue.v: a graceful request is appended behind every user "
             "message already queued and the mailbox is consumed in order). The former witness of a lifecycle-handler panic blocking "
             "Shutdown is repaired in /repo (example C05_panic_in_onterminate_no_longer_blocks_shutdown). Graceful drain, closed flag and "
             "empty registry are checked per run by step-by-step equality with the model and the C05 monitors. "
@@ -53,9 +57,9 @@ MANIFEST = {
             "virtual time and compares clock, registered set after every operation and every completion with the model inside Coq; Go-side "
             "monitors C05:addr:{ask-registered-after-completion, ask-unregistered-while-pending, registered-after-shutdown} restate the "
             "clause from the harness's own facts.",
-    "note": "Partial: the hierarchy theorem carries two hypotheses on the scripts; 'Shutdown returns only after everyone terminated' and the "
-            "graceful-drain clause are decided per run (correspondence + monitors; the queue-order half of the drain clause is a theorem), "
-            "not by theorem. Three open findings (two orphan, one pending ask). Same trusted base as C03. "
+    "note": "Partial: the hierarchy and shutdown theorems carry two hypotheses on the scripts (no spawn from an actor's own OnTerminated "
+            "handler — the open orphan finding is exactly that case — and no spawn under a system address); the graceful-drain clause is "
+            "decided per run (correspondence + monitors; its queue-order half is a theorem). Three open findings (two orphan, one pending ask). Same trusted base as C03. "
             "Temporary addresses: 'no temporary address after Shutdown' is proved only for a "
             "Shutdown that happens after every ask has been answered or has timed out; for asks pending at Shutdown it is refuted and the "
             "monitor reports it (state=pending) as the known finding C05-pending-ask-outlives-shutdown; a registered address in any other "
